@@ -35,15 +35,18 @@ for fn, d in fns.items():
                   bound="all limb vectors the core piece can produce (0 <= s_i < 2^21, s_11 < 2^25)"))
 SA = ["harness/C02/scalar_api.go"]
 GL = ["primeOrder", "defaultEndianess"]
+# should a change route these methods through the limb kernels (verified by their own harnesses), the kernels are summarised
+# ("writes its output parameter, arbitrary value"): the functional claim then fails symbolically and the native battery decides
+KC = {"go.dedis.ch/kyber/v4/group/edwards25519." + k: dict(writes=[0], havoc=True) for k in ["scReduce", "scMulAdd", "scMul", "scAdd", "scSub"]}
 SPLIT = "case split on the byte length of the reduced value (big.Int.Bytes has a value-dependent length): one harness per length, each ASSUMES its length; the lengths listed cover every value"
 for n in [0, 1, 16, 31, 32, 33, 48, 64, 65, 96]:
     for bl in range(0, min(n, 32) + 1):
         quick = n in (0, 31, 32, 33, 64, 65) and bl in (0, 1, 16, 31, 32)
-        H.append(dict(name="scalar.SetBytes-len%d-valuebytes%d" % (n, bl), pkg=PKG, files=SA, entry="HarnessScalarSetBytes", mode="int", params={"p0": n}, globals=GL, big_bytes_len=bl, validate=(3 if quick else 0), unwind=80, timeout_ms=120000,
+        H.append(dict(name="scalar.SetBytes-len%d-valuebytes%d" % (n, bl), pkg=PKG, files=SA, entry="HarnessScalarSetBytes", mode="int", params={"p0": n}, globals=GL, contracts=KC, replay_entry="HarnessScalarAPIReplay", big_bytes_len=bl, validate=(3 if quick else 0), unwind=80, timeout_ms=120000,
                       stubs=["math/big.Int as mathematical integers", SPLIT], functions=["edwards25519.(*scalar).SetBytes", "edwards25519.(*scalar).setInt", "mod.NewIntBytes", "mod.(*Int).LittleEndian"],
                       bound="all byte strings of length %d whose value mod l has a %d-byte minimal encoding, arbitrary stale receiver" % (n, bl), tiers=(["quick", "thorough"] if quick else ["thorough"])))
 for bl in [0, 1, 2, 3, 4, 5, 6, 7, 8, 32]:
-    H.append(dict(name="scalar.SetInt64-valuebytes%d" % bl, pkg=PKG, files=SA, entry="HarnessScalarSmall", mode="int", params={"p0": 0}, globals=GL, big_bytes_len=bl, validate=3, unwind=80, timeout_ms=120000,
+    H.append(dict(name="scalar.SetInt64-valuebytes%d" % bl, pkg=PKG, files=SA, entry="HarnessScalarSmall", mode="int", params={"p0": 0}, globals=GL, contracts=KC, replay_entry="HarnessScalarAPIReplay", big_bytes_len=bl, validate=3, unwind=80, timeout_ms=120000,
                   stubs=["math/big.Int as mathematical integers", SPLIT], functions=["edwards25519.(*scalar).SetInt64", "mod.NewInt64"], bound="all int64 arguments whose residue has a %d-byte minimal encoding (0..8 bytes: non-negative arguments; 32 bytes: negative ones)" % bl,
                   tiers=(["quick", "thorough"] if bl in (0, 1, 8, 32) else ["thorough"])))
 for k, kn in enumerate(["SetInt64", "Zero", "One", "Set", "Clone"]):
